@@ -4,6 +4,11 @@ import json, os, subprocess
 HERE = os.path.dirname(os.path.dirname(os.path.abspath(__file__)))
 
 CLAIMED = {
+ "C03": dict(
+   technique="model-based property testing: grammar-generated structured programs (proptest, shrinking) run on the real interpreter and on an independent reference interpreter; outputs and (error kind, line) compared",
+   text="Programs are generated as structured values (nested FOR incl. NEXT of outer variables, loops left by GOTO, guarded backward jumps, GOSUB from THEN/ELSE, recursion to the 32-frame cap, READ/DATA/RESTORE, DIM/implicit arrays, DEF with dynamic scoping, all documented ELSE forms, injected runtime failures), laid out on numbered lines, rendered with random spacing/case and RUN; printed output and failure (kind, line) must equal those of a reference interpreter written from the documented semantics. Sampling of an unbounded program space; class histograms in the evidence show what was reached.",
+   note="Trusts harness/src/model.rs (reference interpreter over the AST, ~700 lines) and the renderer; generated programs stay inside the documented ELSE forms and use only identifiers made of non-keyword letters.",
+   design="4/C03"),
  "C02": dict(
    technique="exhaustive enumeration of small expression trees + random trees (proptest) vs an independent fold; metamorphic re-rendering with redundant parentheses",
    text="All expression trees with one and two binary operators (every operator pair, both shapes), every unary/ABS/INT placement on them, and all 13^3 operator triples in all five shapes are enumerated over a leaf set of literals and assigned/unassigned variables, plus random trees up to 40 nodes; each is rendered four ways from the property's own precedence table and PRINTed by the real interpreter, and must equal an independent recursive fold (value text or error kind). Complete inside the enumerated bounds, sampled beyond.",
